@@ -3,4 +3,5 @@ CONSTANTS
   Pieces = {}
   Restarts = {"none", "keep", "drop"}
   AllNumberings = TRUE
+  LookupEveryOldPacket = TRUE
 INVARIANT TraceDone
